@@ -47,7 +47,8 @@ def load_all():
     from . import lemmas_cal    # noqa
     import importlib
     for m in ("timezone_t1", "duration_t2", "timepoint_t2", "recurrence_t3",
-              "ctor_t2", "parser_t4", "dumper_t4", "durtext_t4", "parsetext_t4", "ghost"):
+              "ctor_t2", "parser_t4", "dumper_t4", "durtext_t4", "parsetext_t4", "ghost",
+              "cli_t5"):
         try:
             importlib.import_module("contracts." + m)
         except ModuleNotFoundError as e:
